@@ -6,13 +6,13 @@ import (
 	"fmt"
 	"os"
 	"strings"
+	"verif/h/own"
 
 	"github.com/biogo/biogo/align/pals"
 	"github.com/biogo/biogo/align/pals/dp"
 	"github.com/biogo/biogo/align/pals/filter"
 	"github.com/biogo/biogo/alphabet"
 	"github.com/biogo/biogo/morass"
-	"github.com/biogo/biogo/seq/linear"
 	"verif/h/enum"
 )
 
@@ -252,17 +252,17 @@ func overlap(a0, a1, b0, b1 int) int {
 type runner struct{ m *morass.Morass }
 
 func (r *runner) align(k kase, target, query []byte, comp bool) (hits, other dp.Hits, err error) {
-	t := linear.NewSeq("t", alphabet.BytesToLetters(target), alphabet.DNA)
+	t := own.NewSeq("t", alphabet.BytesToLetters(target), alphabet.DNA)
 	q := t
 	if !k.Self {
-		q = linear.NewSeq("q", alphabet.BytesToLetters(query), alphabet.DNA)
+		q = own.NewSeq("q", alphabet.BytesToLetters(query), alphabet.DNA)
 	}
 	r.m.Clear()
 	p := pals.New(t, q, k.Self, r.m, 0, nil, nil)
 	if k.Order == 4 {
 		// the index and the settings come from ANOTHER aligner over the same target, which has searched both
 		// strands of another query first (how cmd/pals spreads queries over workers)
-		other := linear.NewSeq("o", alphabet.BytesToLetters(background(77, 700)), alphabet.DNA)
+		other := own.NewSeq("o", alphabet.BytesToLetters(background(77, 700)), alphabet.DNA)
 		m := pals.New(t, other, false, r.m, 0, nil, nil)
 		if err := m.Optimise(k.MinLen, k.MinId); err != nil {
 			return nil, nil, fmt.Errorf("Optimise: %v", err)
